@@ -7,7 +7,7 @@
     changed in the same handler invocation that emits the transfers, and that a failure at any
     message position therefore leaves nothing behind.  The run-time half is exercised on the
     real code by fault injection at every outgoing message position (DESIGN.md §6 C15). *)
-From FM Require Import Atomic.
+From FM Require Import Atomic Reentrant.
 
 (** Every outgoing message of an [execute] response is fire-and-forget (reply_on = never). *)
 Theorem C15_fire_and_forget : forall ms,
@@ -42,6 +42,14 @@ Theorem C15_retry : forall w o w' out j,
   step (fst (step w (set_fail o (Some j)))) (set_fail o None) = (w', mkOut true out).
 Proof. exact retry_after_fault. Qed.
 Print Assumptions C15_retry.
+
+(** With a hostile token that re-enters the marketplace during dispatch (model/Reentry.v): a
+    transaction that fails anywhere — in the handler, in a message delivered before or after the
+    re-entrant calls — leaves the world as it was, the effects of those calls included. *)
+Theorem C15_reentrant_failure_no_effect : forall w o prog,
+  ok (snd (rstep w o prog)) = false -> fst (rstep w o prog) = w.
+Proof. exact rstep_refused_no_effect. Qed.
+Print Assumptions C15_reentrant_failure_no_effect.
 
 Definition winit : world :=
   mkW (fun a d => if (a =? 1) || (a =? 2) then 1000 else 0) (fun t a => if (t =? 10) && (a =? 1) then 500 else 0) (fun _ _ => None)
